@@ -6,12 +6,16 @@ package gabikeys_test
 
 import (
 	"bytes"
+	"crypto/rand"
 	"encoding/base64"
+	"errors"
 	"fmt"
+	"io"
 	gobig "math/big"
 	"runtime"
 	"runtime/pprof"
 	"sync"
+	"sync/atomic"
 	"testing"
 	"time"
 
@@ -281,6 +285,94 @@ func TestVF_C16_Keys(t *testing.T) {
 		if excess := settle(base); excess > 0 {
 			rec.FailT("safe-prime-workers-left-running-after-key-generation", map[string]any{"Ln": j.ln, "parallel": j.parallel, "goroutines_left": excess, "dump": goroutineDump()})
 			// raise the baseline so that one leak is not reported for every following job
+		}
+	}
+}
+
+// ---------- injected fault: the random source fails during key generation
+
+type faultyReader struct {
+	r          io.Reader
+	failAt     int64 // the read (1-based) at which failures start
+	persistent bool
+	reads      atomic.Int64
+	failed     atomic.Int64
+}
+
+func (f *faultyReader) Read(p []byte) (int, error) {
+	n := f.reads.Add(1)
+	if n == f.failAt || (f.persistent && n > f.failAt) {
+		f.failed.Add(1)
+		return 0, errors.New("vf: injected failure of the random source")
+	}
+	return f.r.Read(p)
+}
+
+// TestVF_C16_RandomSourceFault: key generation with a random source that fails once, or from some
+// read on, must still terminate - with an error or (if the fault came too late) with a well-formed
+// key - must not crash the process, and must leave no safe-prime worker behind.
+func TestVF_C16_RandomSourceFault(t *testing.T) {
+	rec := vfh.New(t, "C16")
+	defer rec.Flush()
+	defer runtime.GOMAXPROCS(runtime.GOMAXPROCS(0))
+	orig := rand.Reader
+	defer func() { rand.Reader = orig }()
+	n := rec.N(60, 600)
+	for i := 0; i < n; i++ {
+		if !rec.Mine(i) {
+			continue
+		}
+		s := uint64(rec.Seed())*7919 + uint64(i)*104729
+		ln := []uint{160, 192, 256, 320}[i%4]
+		persistent := i%2 == 0
+		// the first reads happen within microseconds (several workers start at once), later ones in
+		// the middle of the search: cover both
+		failAt := int64(1 + s%3)
+		if i%3 != 0 {
+			failAt = int64(1 + s%4000)
+		}
+		runtime.GOMAXPROCS([]int{16, 4, 2, 1, 8}[i%5])
+		base := runtime.NumGoroutine()
+		fr := &faultyReader{r: orig, failAt: failAt, persistent: persistent}
+		rand.Reader = fr
+		p := params(ln)
+		type res struct {
+			sk  *gabikeys.PrivateKey
+			pk  *gabikeys.PublicKey
+			err error
+		}
+		ch := make(chan res, 1)
+		exp := time.Unix(1900000000, 0)
+		go func() {
+			sk, pk, err := gabikeys.GenerateKeyPair(p, 2, 1, exp)
+			ch <- res{sk, pk, err}
+		}()
+		var r res
+		select {
+		case r = <-ch:
+		case <-time.After(5 * time.Minute):
+			rand.Reader = orig
+			t.Fatalf("key generation with a failing random source did not return within 5 minutes (inconclusive)")
+		}
+		rand.Reader = orig
+		det := map[string]any{"Ln": ln, "fails_at_read": failAt, "persistent": persistent, "gomaxprocs": runtime.GOMAXPROCS(0), "failures_delivered": fr.failed.Load()}
+		cls := "rng-fault/never-reached"
+		if fr.failed.Load() > 0 {
+			cls = fmt.Sprintf("rng-fault/persistent=%v/early=%v", persistent, failAt <= 3)
+		}
+		rec.Case(cls, fr.failed.Load() > 0, fmt.Sprintf("rf|%d|%d|%v|%d", ln, failAt, persistent, i))
+		if i < 3 {
+			rec.Sample(func() any { return det })
+		}
+		if r.err == nil {
+			if sig, what := judgeKey(r.sk, r.pk, p, 2, 1, exp); sig != "" {
+				det["what"] = what
+				rec.FailT(sig+":after-random-source-fault", det)
+			}
+		}
+		if excess := settle(base); excess > 0 {
+			det["goroutines_left"], det["dump"] = excess, goroutineDump()
+			rec.FailT("safe-prime-workers-left-running-after-random-source-fault", det)
 		}
 	}
 }
